@@ -198,8 +198,9 @@ SITE_KINDS = {"read", "opensrc", "mktmp", "write", "openw", "rename", "remove", 
 class FaultPlan:
     """Fail the k-th fault site with OSError(err); persistent: every later site with the same destination fails too."""
 
-    def __init__(self, im, k, persistent, err=errno.EIO):
+    def __init__(self, im, k, persistent, err=errno.EIO, only_kind=None):
         self.im, self.k, self.persistent, self.err = im, k, persistent, err
+        self.only_kind = only_kind          # count only events of this kind as sites (search beyond the model's sites)
         self.count = 0
         self.stuck = None
         self.fired = None
@@ -208,7 +209,7 @@ class FaultPlan:
 
     def dest(self, ev):
         kind, rel = ev[0], ev[1]
-        if kind == "opensrc":
+        if kind in ("opensrc", "readsrc"):
             return ("src",)
         if kind == "mktmp":
             return ("tmpdir", rel.split(os.sep)[0])
@@ -218,7 +219,14 @@ class FaultPlan:
 
     def hook(self, ev):
         kind = ev[0]
-        if kind not in SITE_KINDS or threading.get_ident() != self.main:
+        if threading.get_ident() != self.main:
+            return None
+        if self.only_kind is not None:
+            if self.stuck is not None and kind in SITE_KINDS and self.matches(self.dest(ev), self.stuck):
+                return self.err
+            if kind != self.only_kind:
+                return None
+        elif kind not in SITE_KINDS:
             return None
         in_move = getattr(fsmon._tls, "in_move", 0) > 0
         d = self.dest(ev)
@@ -246,7 +254,7 @@ class FaultPlan:
         return False
 
 
-def run_faulted(u, setup, call, k, persistent, err=errno.EIO, pids=PIDS, fmts=FMTS, keep=False, mode="th"):
+def run_faulted(u, setup, call, k, persistent, err=errno.EIO, pids=PIDS, fmts=FMTS, keep=False, mode="th", only_kind=None):
     """-> dict(outcome, state, locks, sites, fired, im?)   mode "mp": the store is initialised with USE_MULTIPROCESSING=True"""
     seq.prepare(u, setup + [call])
     old_env = os.environ.get("USE_MULTIPROCESSING")
@@ -265,7 +273,7 @@ def run_faulted(u, setup, call, k, persistent, err=errno.EIO, pids=PIDS, fmts=FM
         fsmon.install()
         fsmon.instrument_store(im.hs, mode)
         im.refresh()
-        plan = FaultPlan(im, k, persistent, err)
+        plan = FaultPlan(im, k, persistent, err, only_kind)
         box = []
 
         def body():
